@@ -827,6 +827,7 @@ class Engine:
         self._pure = {}
         self._quiet = {}
         self._simple = {}
+        self._lemma = {}
         self._symstack = []
         self.scope_fn = scope_fn            # Function -> bool : which functions' sinks are armed
         self.stats = defaultdict(int)
@@ -842,7 +843,21 @@ class Engine:
     # --- hooks -----------------------------------------------------------
     def predicate_lemma(self, fb, call_node, truth):
         f = self.lemmas.get(call_node.get("callee"))
-        return f(fb, call_node, truth) if f else None
+        if f:
+            return f(fb, call_node, truth)
+        if not truth or not call_node.get("callee"):
+            return None
+        g = self.prog.resolve_direct(fb.fn, call_node["callee"])
+        if g is None or g.ret not in ("_Bool", "bool", "int"):
+            return None
+        lem = self.auto_lemma(g)
+        out = []
+        for a, b in lem:
+            sa, sb = self.subst(fb, call_node["id"], g, a), self.subst(fb, call_node["id"], g, b)
+            if sa is not None and sb is not None:
+                out.append((sa, sb))
+                self.stats["auto_lemma"] += 1
+        return out or None
 
     def post_call_facts(self, fb, F, nid):
         n = fb.fn.nodes[nid]
@@ -1218,8 +1233,8 @@ class Engine:
                 goals.append(g)
         return goals
 
-    def _instantiate(self, fb, nid, d, r):
-        """requirement r of callee d at call node nid: substitute actuals"""
+    def subst(self, fb, nid, d, l):
+        """linear form l over callee d's parameter templates -> caller's terms at call node nid"""
         f = fb.fn
         n = f.nodes[nid]
         pidx = {p["name"]: i for i, p in enumerate(d.params)}
@@ -1228,56 +1243,130 @@ class Engine:
             i = pidx[name]
             if i >= len(n["args"]):
                 return None
-            l = fb.lin(n["args"][i])
-            if l is not None:
-                if not l[0]:
-                    return str(l[1])
-                if len(l[0]) == 1 and l[1] == 0 and list(l[0].values()) == [1]:
-                    return list(l[0])[0]
+            l2 = fb.lin(n["args"][i])
+            if l2 is not None:
+                if not l2[0]:
+                    return str(l2[1])
+                if len(l2[0]) == 1 and l2[1] == 0 and list(l2[0].values()) == [1]:
+                    return list(l2[0])[0]
             return fb.term(n["args"][i])
+        out = lin_const(l[1])
+        for t, c in l[0].items():
+            m = re.fullmatch(r"(cap|strlen)\(([A-Za-z_][A-Za-z_0-9]*)\)", t)
+            x = None
+            if t in pidx:
+                x = fb.lin(n["args"][pidx[t]]) if pidx[t] < len(n["args"]) else None
+            elif m and m.group(2) in pidx and pidx[m.group(2)] < len(n["args"]):
+                a = n["args"][pidx[m.group(2)]]
+                x = fb.capof(a) if m.group(1) == "cap" else self._strlen_of(fb, a)
+            else:
+                ok = True
 
-        def sub(l):
-            out = lin_const(l[1])
-            for t, c in l[0].items():
-                m = re.fullmatch(r"(cap|strlen)\(([A-Za-z_][A-Za-z_0-9]*)\)", t)
-                x = None
-                if t in pidx:
-                    x = fb.lin(n["args"][pidx[t]]) if pidx[t] < len(n["args"]) else None
-                elif m and m.group(2) in pidx and pidx[m.group(2)] < len(n["args"]):
-                    a = n["args"][pidx[m.group(2)]]
-                    x = fb.capof(a) if m.group(1) == "cap" else self._strlen_of(fb, a)
-                else:
-                    ok = True
+                def rep(mo):
+                    nonlocal ok
+                    w = mo.group(0)
+                    if w in pidx:
+                        st = mo.start()
+                        pre = t[max(0, st - 2):st]
+                        post = t[mo.end():mo.end() + 1]
+                        if pre.endswith("->") or pre.endswith(".") or post == "(":
+                            return w
+                        at = actual_term(w)
+                        if at is None:
+                            ok = False
+                            return w
+                        return at
+                    return w
+                t2 = WORD.sub(rep, t)
+                if ok:
+                    x = lin_term(t2)
+                    if t2.startswith("strlen("):
+                        fb.nonneg.add(t2)
+            if x is None:
+                return None
+            out = lin_add(out, ({k: v * c for k, v in x[0].items()}, x[1] * c))
+        return out
 
-                    def rep(mo):
-                        nonlocal ok
-                        w = mo.group(0)
-                        if w in pidx:
-                            # not a field / function name?
-                            st = mo.start()
-                            pre = t[max(0, st - 2):st]
-                            post = t[mo.end():mo.end() + 1]
-                            if pre.endswith("->") or pre.endswith(".") or post == "(":
-                                return w
-                            at = actual_term(w)
-                            if at is None:
-                                ok = False
-                                return w
-                            return at
-                        return w
-                    t2 = WORD.sub(rep, t)
-                    if ok:
-                        x = lin_term(t2)
-                        if t2.startswith("strlen("):
-                            fb.nonneg.add(t2)
-                if x is None:
-                    return None
-                out = lin_add(out, ({k: v * c for k, v in x[0].items()}, x[1] * c))
-            return out
+    def _instantiate(self, fb, nid, d, r):
+        """requirement r of callee d at call node nid: substitute actuals"""
+        f = fb.fn
         origin = dict(r.origin)
         origin["chain"] = [f.name] + r.origin["chain"]
         origin["loc_call"] = f.loc(nid)
-        return (sub(r.lhs), sub(r.rhs), origin)
+        return (self.subst(fb, nid, d, r.lhs), self.subst(fb, nid, d, r.rhs), origin)
+
+    # --- derived predicate lemmas ---------------------------------------------
+    def auto_lemma(self, g):
+        """facts (lhs lin, rhs lin) over g's parameters that hold whenever g
+        returns non-zero: negations of the guards on whose edge g returns 0
+        before doing anything else"""
+        if g in self._lemma:
+            return self._lemma[g]
+        self._lemma[g] = []
+        try:
+            fb = FnBounds(self, g)
+        except Exception:
+            return []
+        out = []
+        b = g.entry
+        steps = 0
+        params = {p["name"] for p in g.params} - fb.assigned
+        while steps < 10:
+            steps += 1
+            blk = g.blocks[b]
+            es = C.edges(g, blk)
+            if len(es) == 2 and es[0][1] in ("T", "F"):
+                zero = [self._returns_zero(g, s) for s, _ in es]
+                if zero[0] != zero[1]:
+                    surv = es[1] if zero[0] else es[0]
+                    F = fb.edge_facts(Facts(), blk.term["cond"], surv[1])
+                    for (a, c2), c in F.f.items():
+                        ok = all(self._param_only(t, params) for t in (a, c2) if t != ZERO)
+                        if ok:
+                            la = lin_const(0) if a == ZERO else lin_term(a)
+                            lb = lin_const(c) if c2 == ZERO else lin_add(lin_term(c2), lin_const(c))
+                            out.append((la, lb))
+                    b = surv[0]
+                    continue
+                break
+            if len(es) != 1:
+                break
+            if any(g.nodes[e]["k"] == "call" and not self.is_pure(g, e) for e in blk.elems):
+                break
+            b = es[0][0]
+        self._lemma[g] = out
+        return out
+
+    @staticmethod
+    def _param_only(t, params):
+        for mo in WORD.finditer(t):
+            w = mo.group(0)
+            st = mo.start()
+            pre = t[max(0, st - 2):st]
+            post = t[mo.end():mo.end() + 1]
+            if pre.endswith("->") or pre.endswith(".") or post == "(":
+                continue
+            if w not in params:
+                return False
+        return True
+
+    def _returns_zero(self, g, b):
+        """block b (following straight-line edges) returns constant 0/false at once"""
+        steps = 0
+        while steps < 4:
+            steps += 1
+            blk = g.blocks[b]
+            for e in blk.elems:
+                n = g.nodes[e]
+                if n["k"] == "return":
+                    return n.get("sub") is not None and C.const_of(g, n["sub"]) == 0
+                if n["k"] == "call" and not self.is_pure(g, e):
+                    return False
+            es = C.edges(g, blk)
+            if len(es) != 1:
+                return False
+            b = es[0][0]
+        return False
 
     def _strlen_of(self, fb, a):
         """strlen term of an argument; strlen(s + e) is bounded by strlen(s)
